@@ -130,6 +130,10 @@ func (e *Engine) closureOf(id *ast.Ident) *ast.FuncLit {
 // ---------------- calls ----------------
 
 func (e *Engine) evCall(c *ast.CallExpr, st *State) []Value {
+	if e.c != nil && len(e.c.LitAsserts) > 0 {
+		// call-site assertions (`callassert`) are checked in the state right before the call
+		e.litAsserts(c, Value{}, st)
+	}
 	// conversion?
 	if tv, ok := e.pk.Info.Types[c.Fun]; ok && tv.IsType() {
 		v := e.ev(c.Args[0], st)
